@@ -30,6 +30,9 @@ def opt(x):
     return [] if x is None else [x]
 
 
+_FALSY = {}
+
+
 class W:
     """The implementation side: real gtirb objects addressed by small numbers."""
 
@@ -133,22 +136,31 @@ class W:
             _, n, k, u, a, sz, off, nm, p = it
             kind = KINDS[k]
             uu = uuidlib.UUID(int=u)
+            # every third node is an instance of a USER SUBCLASS of the API class -- one that, like many container-ish classes,
+            # defines its truth value (__len__ / __bool__) and is falsy: a node is a node whatever `bool(node)` says
+            def C(base):
+                if n % 3 != 2:
+                    return base
+                key = (id(g), base.__name__)
+                if key not in _FALSY:
+                    _FALSY[key] = type("Falsy" + base.__name__, (base,), {"__len__": lambda self: 0} if len(_FALSY) % 2 else {"__bool__": lambda self: False})
+                return _FALSY[key]
             if kind == "IR":
-                o = g.IR(uuid=uu)
+                o = C(g.IR)(uuid=uu)
             elif kind == "Module":
-                o = g.Module(name="m%d" % n, uuid=uu)
+                o = C(g.Module)(name="m%d" % n, uuid=uu)
             elif kind == "Section":
-                o = g.Section(name="s%d" % n, uuid=uu)
+                o = C(g.Section)(name="s%d" % n, uuid=uu)
             elif kind == "ByteInterval":
-                o = g.ByteInterval(address=(a[0] if a else None), size=sz, uuid=uu)
+                o = C(g.ByteInterval)(address=(a[0] if a else None), size=sz, uuid=uu)
             elif kind == "CodeBlock":
-                o = g.CodeBlock(size=sz, offset=off, uuid=uu)
+                o = C(g.CodeBlock)(size=sz, offset=off, uuid=uu)
             elif kind == "DataBlock":
-                o = g.DataBlock(size=sz, offset=off, uuid=uu)
+                o = C(g.DataBlock)(size=sz, offset=off, uuid=uu)
             elif kind == "ProxyBlock":
-                o = g.ProxyBlock(uuid=uu)
+                o = C(g.ProxyBlock)(uuid=uu)
             else:
-                o = g.Symbol(self.name(nm), uuid=uu, payload=self.payload_py(p))
+                o = C(g.Symbol)(self.name(nm), uuid=uu, payload=self.payload_py(p))
             self.adopt(n, kind, o)
             return [0]
         if c == 50:
@@ -690,8 +702,14 @@ def d4_probe(g, shape):
     try:
         if shape == "setitem-same-list":
             ir.modules[2] = ms[0]
-        else:
+        elif shape == "setslice-same-list":
             ir.modules[2:3] = [ms[0]]
+        else:
+            # "setslice-repeated-value": the assigned list names a module twice (a module that is not in the list at all)
+            n = g.Module(name="n")
+            w.adopt(5, "Module", n)
+            ms.append(n)
+            ir.modules[0:1] = [n, n]
     except Exception:  # noqa: BLE001
         pass
     return w, [m.uuid.int for m in ms]
